@@ -126,6 +126,10 @@ func (c01) genProgram(c *core.Ctx) *hast.Program {
 		return routerProgram(r)
 	}
 	cfg := gen.DefaultFlow()
+	if c.Thorough() && c.Idx%5 == 4 {
+		// deeper bounds in the thorough tier: up to 8 nodes, 90 statements, nesting 7
+		cfg.MaxNodes, cfg.MaxStmts, cfg.MaxDepth, cfg.MaxReaders = 8, 90, 7, 4
+	}
 	switch c.Idx % 4 {
 	case 1:
 		cfg.WOptions, cfg.WIf, cfg.MaxDepth = 30, 25, 6
